@@ -1,5 +1,6 @@
 import Driver.Common
 import Model.Estimate
+import Model.EstimateFlow
 open Lean Drv Estimate
 
 /-! JSON-lines driver of the C07 model (Model/Estimate.lean on `Float`). -/
@@ -130,6 +131,79 @@ def parseOp (j : Json) : Except String (Op Float) := do
     pure (.changeInit vals)
   | _ => throw "bad-op"
 
+
+/-! ### round 3: the extended object (`Estimate.frun`), `NegativeLikelihood` call by call, catalogs -/
+
+structure OptRowT where
+  tag : Nat
+  x0 : List Float
+  xs : List Float
+  converged : Bool
+  evals : List (List Float)
+
+def replayOptT (t : List OptRowT) : OptimizerT Float := fun f _ _ _ x0 =>
+  let tag := (f []).toUInt64.toNat
+  match t.find? fun r => r.tag == tag && bitsEq r.x0 x0 with
+  | some r => { x := r.xs, converged := r.converged, evals := r.evals }
+  | none => { x := [], converged := false, evals := [] }
+
+def parseEvRows (j : Json) (k : String) : Except String (List EvRow) := do
+  (← getArr j k).toList.mapM fun r => do
+    pure ({ x := (← getVec r "x"),
+            e := { f := (← getFloat r "f"), g := (← getVec r "g"), h := (← getMat r "h"), bhhh := (← getMat r "bhhh") } } : EvRow)
+
+def parseOptRowsT (j : Json) (k : String) : Except String (List OptRowT) := do
+  (← getArr j k).toList.mapM fun r => do
+    let ev ← (← getArr r "evals").toList.mapM fun v => floatList v
+    pure ({ tag := (← getNat r "tag"), x0 := (← getVec r "x0"), xs := (← getVec r "xstar"),
+            converged := (← getBool r "converged"), evals := ev } : OptRowT)
+
+def parseVals (j : Json) : Except String (List (String × Float)) := do
+  (← asArr j).toList.mapM fun p => do
+    match (← asArr p).toList with
+    | [n, v] => pure ((← asStr n), (← asFloat v))
+    | _ => throw "bad-op"
+
+def parseFOp (tables : List (Nat × List EvRow)) (j : Json) : Except String (FOp Float) := do
+  match (← getStr j "op") with
+  | "like" => pure (.like (← getVec j "x"))
+  | "evalD" => pure (.evalD (← getVec j "x"))
+  | "init" => pure .initLikelihood
+  | "quick" => pure .quickEstimate
+  | "estimate" =>
+    match (← j.getObjVal? "boot") with
+    | Json.null => pure (.estimate none)
+    | v => do
+      let tags ← natList v
+      let objs ← tags.mapM fun t =>
+        match tables.lookup t with
+        | some tb => pure (taggedObjective t tb)
+        | none => throw "replay-miss"
+      pure (.estimate (some objs))
+  | "change" => pure (.changeInit (← parseVals (← j.getObjVal? "vals")))
+  | "setSave" => pure (.setSave (← getBool j "value"))
+  | "nullLL" => pure (.nullLL (← getMat j "rows"))
+  | "removeFile" => pure .removeFile
+  | _ => throw "bad-op"
+
+def valsJson (v : List (String × Float)) : Json := jArr (v.map fun (n, x) => jArr [jStr n, fbits x])
+
+def freportJson (r : FReport Float) : Json :=
+  match reportJson r.rep with
+  | Json.obj kvs => Json.obj (kvs.insert "nullLL" (optFloatJson r.nullLL))
+  | j => j
+
+def negKindOf (s : String) : Except String NegKind :=
+  match s with
+  | "f" => pure .f
+  | "fg" => pure .fg
+  | "fgh" => pure .fgh
+  | _ => throw "bad-op"
+
+def likeCallJson (c : LikeCall) : Json :=
+  Json.mkObj [("derivatives", jBool c.derivatives), ("scaled", jBool c.scaled), ("hessian", jBool c.hessian),
+    ("bhhh", jBool c.bhhh), ("batch_none", jBool c.batchNone)]
+
 def handle (j : Json) : Except String Json := do
   let op ← getStr j "op"
   match op with
@@ -236,6 +310,73 @@ def handle (j : Json) : Except String Json := do
       ("state", Json.mkObj [("params", paramsOut out.1.params), ("idValues", jFloats out.1.idValues),
         ("initLogLike", optFloatJson out.1.initLogLike),
         ("bootstrap", match out.1.bootstrap with | some rows => jMat rows | none => Json.null)])])
+  | "negcalls" =>
+    -- every call recorded during a real optimisation: kind, what the BIOGEME object returned
+    let calls ← (← getArr j "calls").toList.mapM fun c => do
+      let k ← negKindOf (← getStr c "kind")
+      let f ← getFloat c "f"
+      let g ← getVec c "g"
+      let h ← getMat c "h"
+      let ev : Vec Float → Eval Float := fun _ => { f := f, g := g, h := h, bhhh := [] }
+      let out := negCall (fun _ => f) ev k []
+      pure (Json.mkObj [("flags", likeCallJson (negFlags k)), ("f", fbits out.f),
+        ("g", match out.g with | some g => jFloats g | none => Json.null),
+        ("h", match out.h with | some h => jMat h | none => Json.null)])
+    pure (Json.mkObj [("calls", jArr calls)])
+  | "nullll" =>
+    pure (Json.mkObj [("value", fbits (nullLogLike (← getMat j "rows")))])
+  | "flow" =>
+    let names ← strList (← j.getObjVal? "names")
+    let ps ← parseParams j "params"
+    let idv ← getVec j "idValues"
+    let bounds ← parseBounds (← j.getObjVal? "bounds")
+    let evs ← parseEvRows j "evals"
+    let bootTables ← (← getArr j "boot_tables").toList.mapM fun t => do
+      pure ((← getNat t "tag"), (← parseEvRows t "evals"))
+    let opts ← parseOptRowsT j "opt"
+    let ops ← (← getArr j "ops").toList.mapM (parseFOp bootTables)
+    let file ← match (← j.getObjVal? "file") with
+      | Json.null => pure none
+      | v => do pure (some (← parseVals v))
+    let save ← getBool j "save"
+    -- never default silently: every point of a recorded trace must be in the table of its objective
+    for r in opts do
+      let tb ← if r.tag == 0 then pure evs else match bootTables.lookup r.tag with
+        | some t => pure t
+        | none => throw "replay-miss"
+      if r.evals.any fun x => !(tb.any fun row => bitsEq row.x x) then throw "replay-miss"
+    let env : EnvT Float := { names := names, obj := taggedObjective 0 evs, fd := fun _ => [], opt := replayOptT opts, bounds := bounds }
+    let s0 : FState Float := { s := { params := ps, idValues := idv, initLogLike := none, bootstrap := none },
+                               it := { best := none, file := file }, nullLL := none, save := save }
+    let out := frun env s0 ops
+    if out.2.any fun r => r.rep.res.x.isEmpty || !(evs.any fun row => bitsEq row.x r.rep.res.x) then throw "replay-miss"
+    if out.2.any fun r => match r.rep.bootstrap with
+        | some rows => rows.any fun row => row.isEmpty
+        | none => false then throw "replay-miss"
+    pure (Json.mkObj [
+      ("reports", jArr (out.2.map freportJson)),
+      ("state", Json.mkObj [("params", paramsOut out.1.s.params), ("idValues", jFloats out.1.s.idValues),
+        ("initLogLike", optFloatJson out.1.s.initLogLike),
+        ("bootstrap", match out.1.s.bootstrap with | some rows => jMat rows | none => Json.null),
+        ("file", match out.1.it.file with | some v => valsJson v | none => Json.null),
+        ("best", optFloatJson out.1.it.best), ("nullLL", optFloatJson out.1.nullLL), ("save", jBool out.1.save)])])
+  | "catalog" =>
+    let quick ← getBool j "quick"
+    let cfgs ← (← getArr j "configs").toList.mapM fun c => do
+      let names ← strList (← c.getObjVal? "names")
+      let ps ← parseParams c "params"
+      let idv ← getVec c "idValues"
+      let bounds ← parseBounds (← c.getObjVal? "bounds")
+      let evs ← parseEvRows c "evals"
+      let opts ← (← getArr c "opt").toList.mapM fun r => do
+        pure ({ tag := (← getNat r "tag"), x0 := (← getVec r "x0"), xs := (← getVec r "xstar"),
+                converged := (← getBool r "converged") } : OptRow)
+      let env : Env Float := { names := names, obj := taggedObjective 0 evs, fd := fun _ => [], opt := replayOpt opts, bounds := bounds }
+      pure ({ id := (← getStr c "id"), env := env,
+              s0 := { params := ps, idValues := idv, initLogLike := none, bootstrap := none } } : Config Float)
+    let out := estimateCatalog quick (fun _ => none) cfgs
+    if out.any fun p => p.2.res.x.isEmpty then throw "replay-miss"
+    pure (Json.mkObj [("results", jArr (out.map fun p => Json.mkObj [("id", jStr p.1), ("report", reportJson p.2)]))])
   | _ => throw "bad-op"
 
 def main : IO Unit := Drv.run handle
